@@ -76,6 +76,8 @@ def generate(tier, rng):
                         if any(all(Fraction(v) == 0 for kk, v in zip(keys, vals) if kk[w] == it) for it in ds[w]["items"]):
                             continue
                     cases.append(dict(stream="exact", kind="direct", dims=ds, values=vals, index=index, dim_to_columns=d2c, sparse=sparse))
+                    if (k + len(cases)) % 3 == 0:
+                        cases.append(dict(cases[-1], into=["int64", "float32", "int32"][(k + len(cases)) % 3 if False else len(cases) % 3]))
         # the same array in a unit 2^70 times larger (entries of the order 1e-21): a sparse table lists exactly the NON-ZERO entries,
         # however small they are
         tiny = [str(Fraction(v) / 2 ** 70) for v in vals]
@@ -156,7 +158,17 @@ def run_impl(case):
             if case["sparse"]:
                 rows = [r for r in rows if r[1] is not None]
             return dict(kind="ok", rows=[[r[0], None if r[1] is None else [r[1].numerator, r[1].denominator]] for r in rows])
-        r = observe(lambda: fd.FlodymArray.from_df(dims=dims, df=df, allow_missing_values=case["sparse"]))
+        if case.get("into"):
+            # read into an array that exists already and holds whole numbers in an integer (or single-precision) array, e.g. a
+            # placeholder made with full(dims, 0): the imported numbers are those of the table
+            tgt = fd.FlodymArray(dims=dims, values=np.zeros(dims.shape, dtype=case["into"]))
+
+            def into():
+                tgt.set_values_from_df(df, allow_missing_values=case["sparse"])
+                return tgt
+            r = observe(into)
+        else:
+            r = observe(lambda: fd.FlodymArray.from_df(dims=dims, df=df, allow_missing_values=case["sparse"]))
         if r["kind"] == "ok":
             r["value"] = observe_values(r["value"].values)
         return r
